@@ -365,7 +365,7 @@ impl Check for PrefixCheck {
             rule: "generated: two related namespace paths (0-4 segments from an adversarial pool incl. empty, 00/FF, foo/fo/food, a segment spelling another's length prefix, all-FF of length 1-3/255/256/65535; second path is child/parent/sibling/merged/identical/unrelated), raw keys written inside, just below, just above and around each window, then get/set/remove/range through read-only and mutable views from App::prefixed_*storage*; every result compared with the window of a reference BTreeMap of raw keys under an independently written length-prefix encoding. Non-trivial: a range returning >=1 entry on a view while the base holds raw keys both below and above the window that share a byte prefix with it, or a range on a view whose encoded prefix ends in 0xFF; distinct = distinct serialised case",
             assumptions: vec![
                 "segments longer than 65535 bytes are outside the domain (documented panic)",
-                "values are non-empty",
+                "values are non-empty (an empty value is only used to check that a view passes the base store's refusal on)",
                 "MockStorage is a correct ordered map",
             ],
             floor_quick: 300,
@@ -527,9 +527,28 @@ impl Check for PrefixCheck {
                         st.set(&k.0, &val.0);
                     });
                     ensure!(r.is_err(), "C07:readonly-accepts-write", "set through a read-only view of prefix {} was not rejected", hexs(&prefixes[*v]));
+                    // also the write that would change nothing: the very value the key already holds
+                    let current = open_ro(&app, &case.paths[*v], case.single[*v]).get(&k.0);
+                    if let Some(cur) = current.filter(|c| !c.is_empty()) {
+                        let r2 = catch(|| {
+                            let mut st = open_ro(&app, &case.paths[*v], case.single[*v]);
+                            st.set(&k.0, &cur);
+                        });
+                        ensure!(r2.is_err(), "C07:readonly-accepts-write", "set of the value already stored, through a read-only view of prefix {}, was not rejected", hexs(&prefixes[*v]));
+                        cx.label("readonly-write-rejected:same-value");
+                    }
                     let after = scan(app.storage());
                     ensure!(before == after, "C07:readonly-write-changed-base", "rejected set through read-only view changed the base: {:?}", diff_scans(&before, &after));
                     cx.label("readonly-write-rejected");
+                    // a set on the *mutable* view is the set on the raw key: the base store refuses an
+                    // empty value (documented panic of MemoryStorage::set), so must the view - it may not
+                    // turn the call into something else
+                    let r3 = catch(|| {
+                        let mut st = open_rw(&mut app, &case.paths[*v], case.single[*v]);
+                        st.set(&k.0, &[]);
+                    });
+                    let after = scan(app.storage());
+                    ensure!(r3.is_err() && before == after, "C07:empty-value-not-passed-to-base", "set(key {}, empty value) through the mutable view of prefix {}: the raw store refuses it, the view {} and the base {}", hexs(&k.0), hexs(&prefixes[*v]), if r3.is_err() { "refused it" } else { "accepted it" }, if before == after { "is unchanged" } else { "changed" });
                 }
                 Op::RoRemove(v, k) => {
                     let before = scan(app.storage());
